@@ -27,9 +27,23 @@ pub struct Case {
     pub max_log_before_snapshot: u64,
     pub chunk_size: u64,
     pub via_node_config: bool,
+    /// server read configuration (the timing constraints must not depend on it): 0 = lease, 1 = linearizable, 2 = eventual
+    #[serde(default = "one")]
+    pub default_policy: u8,
+    #[serde(default = "yes")]
+    pub allow_override: bool,
+}
+fn one() -> u8 {
+    1
+}
+fn yes() -> bool {
+    true
 }
 
-pub struct C34;
+/// The property id this run reports under: "C34", or "C12" for the configuration clause of C12
+/// (only the lease/election inequality is judged then).
+#[derive(Clone)]
+pub struct C34(pub &'static str);
 
 fn pool() -> BoxedStrategy<u64> {
     prop_oneof![
@@ -49,7 +63,7 @@ fn mostly_valid(default: u64) -> BoxedStrategy<u64> {
 impl Check for C34 {
     type Case = Case;
     fn id(&self) -> &'static str {
-        "C34"
+        self.0
     }
     fn rule(&self) -> String {
         "cases = numeric RaftConfig fields drawn from boundary pools {0,1,2,3, 2^32±1, 2^48±1, u64::MAX-k, random} with the lease/rtt/election triple also placed constructively at distance -2..=2 around each comparison; non-trivial = validate() accepted the config OR the lease/election comparison is within ±2 of its boundary; distinct by hash of all generated fields".into()
@@ -98,10 +112,12 @@ impl Check for C34 {
             mostly_valid(50),
             mostly_valid(1000),
             mostly_valid(1024),
-            any::<bool>(),
+            (any::<bool>(), 0u8..3, any::<bool>()),
         )
             .prop_map(
-                |((lease, rtt, emin, emax), heartbeat, max_batch, max_merge, per_req, retained, catchup, general_timeout, mlbs, chunk_size, via)| Case {
+                |((lease, rtt, emin, emax), heartbeat, max_batch, max_merge, per_req, retained, catchup, general_timeout, mlbs, chunk_size, (via, default_policy, allow_override))| Case {
+                    default_policy,
+                    allow_override,
                     lease,
                     rtt,
                     emin,
@@ -125,6 +141,12 @@ impl Check for C34 {
         let mut out = Outcome::ok();
         let mut raft = RaftConfig::default();
         raft.read_consistency.lease_duration_ms = c.lease;
+        raft.read_consistency.default_policy = match c.default_policy {
+            0 => d_engine_core::ReadConsistencyPolicy::LeaseRead,
+            2 => d_engine_core::ReadConsistencyPolicy::EventualConsistency,
+            _ => d_engine_core::ReadConsistencyPolicy::LinearizableRead,
+        };
+        raft.read_consistency.allow_client_override = c.allow_override;
         raft.read_consistency.network_rtt_p99_ms = c.rtt;
         raft.election.election_timeout_min = c.emin;
         raft.election.election_timeout_max = c.emax;
@@ -173,7 +195,12 @@ impl Check for C34 {
 
         if accepted {
             if !(lhs < c.emin as u128) {
-                out.violate("C34:lease-not-below-election-min", format!("accepted lease={} rtt={} (lease+rtt/2={}) election_min={}", c.lease, c.rtt, lhs, c.emin));
+                out.violate(
+                    format!("{}:lease-not-below-election-min", self.0),
+                    format!("accepted lease={} rtt={} (lease+rtt/2={}) election_min={} default_policy={} allow_client_override={}", c.lease, c.rtt, lhs, c.emin, c.default_policy, c.allow_override),
+                );
+            } else if self.0 != "C34" {
+                // configuration clause of C12: only the lease window is judged
             } else if !(c.emin < c.emax) {
                 out.violate("C34:election-min-not-below-max", format!("accepted election_min={} election_max={}", c.emin, c.emax));
             } else if c.heartbeat == 0 {
